@@ -112,6 +112,14 @@ def cr_stream(ctx, n):
                 v = [Fraction(rng.randint(-3, 3)) for _ in range(3)] + [Fraction(rng.choice([1, 0]))]
                 if abs(np.linalg.det(np.array([fl(u), fl(v), fl(a), fl(b)]))) > 1e-9:
                     break
+            # four concurrent (hence coplanar) lines of space through the points and a vertex off the line
+            O3 = g.Point(fl(u))
+            lines3 = [call_impl(lambda p=p: g.join(O3, p)) for p in P]
+            if all(l[0] == "ok" for l in lines3) and np.linalg.matrix_rank(np.array([fl(u), fl(a), fl(b)])) == 3:
+                s = call_impl(lambda: g.crossratio(*[l[1] for l in lines3]))
+                ctx.count("cr:lines3d")
+                if s[0] != "ok" or not close(float(np.real(s[1])), exp, 1e-6):
+                    ctx.disagree("C11:crossratio:lines3d", desc + f" vertex={[str(x) for x in u]}", exp, s[1:3], replay=[desc])
             U, V = g.Point(fl(u)), g.Point(fl(v))
             planes = [call_impl(lambda p=p: g.join(U, V, p)) for p in P]
             if all(pl[0] == "ok" for pl in planes):
@@ -188,6 +196,24 @@ def errors_stream(ctx, n):
         r = call_impl(lambda: g.crossratio(*P))
         if not (r[0] == "err" and r[1] == "NotCollinear"):
             ctx.disagree(f"C11:NotCollinear:{dim}d", desc, "NotCollinear", r[1:3], replay=[desc])
+        if dim == 3:
+            # four lines of space, three through a common point in a common plane, the fourth one not (off the point or off the plane)
+            o = np.array([rng.randint(-3, 3) for _ in range(3)] + [1.0])
+            e1, e2 = np.array([1.0, rng.randint(-2, 2), 0, 0]), np.array([0.0, rng.randint(-2, 2), 1, 0])
+            dirs = [e1, e2, e1 + e2]
+            bad = rng.choice([np.array([0.0, 1.0, rng.randint(2, 4), 0]) if abs(np.linalg.det(np.array([e1[:3], e2[:3], [0, 1, 3]]))) > 0 else e1 * 0,
+                              None])
+            L3 = [g.Line(g.Point(o), g.Point(o + d)) for d in dirs]
+            if bad is None:
+                o2 = o + np.array([0.0, 1.0, 0.0, 0.0]) + e1 * 0
+                L3.append(g.Line(g.Point(o + e1 * 2), g.Point(o + e1 * 2 + e2)))      # in the plane, not through the vertex
+            elif np.any(bad):
+                L3.append(g.Line(g.Point(o), g.Point(o + bad)))                        # through the vertex, out of the plane
+            if len(L3) == 4:
+                r = call_impl(lambda: g.crossratio(*L3))
+                ctx.count("errors:lines3d")
+                if not (r[0] == "err" and r[1] == "NotConcurrent"):
+                    ctx.disagree("C11:NotConcurrent:3d", f"not-concurrent 3-D lines vertex={o.tolist()}", "NotConcurrent", r[1:3], replay=[desc])
         if dim == 2:
             ls = [[rng.randint(-4, 4) for _ in range(3)] for _ in range(4)]
             if abs(np.linalg.det(np.array(ls[:3], dtype=float))) < 1e-9 or np.linalg.matrix_rank(np.array(ls, dtype=float)) < 3:
